@@ -660,6 +660,14 @@ type ssMut struct {
 	Val   uint32 `json:"val,omitempty"`   // len/strlen: new field value; type: new type byte; tail: number of bytes appended INSIDE Frame (its length word follows)
 	Hex   string `json:"hex,omitempty"`   // garbage: appended bytes; raw: bytes inserted before Frame
 	Pipe  bool   `json:"pipe,omitempty"`  // send the whole stream at once (dedicated pipelining cases)
+	// Tr is the transport the server is given for this case (ssStartTr):
+	//   ""      one connection object: the server's Close ends BOTH directions (net.Conn, net.Pipe, an ssh channel);
+	//   "split" two independent pipes (struct{io.Reader; io.WriteCloser}, the stdin/stdout of an sftp subsystem):
+	//           Close ends the server's output only, its input stays readable for as long as the peer keeps it open;
+	//   "buf"   the reader is a bytes.Reader over the whole mutated stream (every byte is there before Serve
+	//           starts, EOF follows the last one), the writer a separate sink; implies Pipe.
+	// On the last two nothing but the server's own loop stops it from reading what follows a malformed packet.
+	Tr string `json:"tr,omitempty"`
 	// field: the W-byte (4 | 8) integer field at Off of Frame := V64; the rest of the frame is kept.
 	// Fit (string-length fields): the string is cut or padded to the new length and the frame's length
 	// prefix follows, so the request stays well-formed and is DISPATCHED with the new length.
